@@ -15,8 +15,8 @@
 EXTENDS HousekeepingProps, TraceKit
 
 CONSTANT Want
-VARIABLES l, fails, removed, kept, done
-tvars == <<l, fails, removed, kept, done>>
+VARIABLES l, fails, removed, kept, live, liveodd, done
+tvars == <<l, fails, removed, kept, live, liveodd, done>>
 
 Rng(s) == {s[x] : x \in DOMAIN s}
 WellFormed(r) == /\ Has(r, "ev") /\ r.ev = "Housekeep" /\ Has(r, "in") /\ Has(r, "out")
@@ -30,16 +30,24 @@ RecFails(i, r) ==
     \o Chk(Want, i, "C43_KeepsRecent", C43_KeepsRecent(arts, gone, r.in.sidecar, r.out.slack) /\ r.out.changed = <<>>)
     \o Chk(Want, i, "C43_OutsideUntouched", C43_OutsideUntouched(r.out.before, r.out.after))
 
-TInit == l = 1 /\ fails = <<>> /\ removed = 0 /\ kept = 0 /\ done = FALSE
+\* growth (HousekeepingLive.tla): runs with users at work.  The live artifacts that enter the verdict carry the
+\* age the parent observed right before the call; what the model leaves open (a root worked in without being
+\* refreshed, a long-running agent with an old access time) is only counted.
+IsLive(r) == WellFormed(r) /\ Has(r, "src") /\ r.src = "live"
+LiveOdd(r) == IsLive(r) /\ (r.out.live.errors_recent > 0 \/ r.out.live.errors_refreshed > 0
+                           \/ ~r.out.live.running_agent_process_up \/ ~r.out.live.old_atime_agent_process_up)
+TInit == l = 1 /\ fails = <<>> /\ removed = 0 /\ kept = 0 /\ live = 0 /\ liveodd = 0 /\ done = FALSE
 Step == /\ l <= NRec
         /\ LET r == Trace[l] IN
            /\ fails' = Cap(fails \o RecFails(l, r))
            /\ removed' = removed + (IF WellFormed(r) THEN Len(r.out.gone) ELSE 0)
            /\ kept' = kept + (IF WellFormed(r) THEN Len(r.in.arts) - Len(r.out.gone) ELSE 0)
+           /\ live' = live + (IF IsLive(r) THEN 1 ELSE 0)
+           /\ liveodd' = liveodd + (IF LiveOdd(r) THEN 1 ELSE 0)
         /\ l' = l + 1 /\ UNCHANGED done
 Finish == /\ l = NRec + 1 /\ ~done
-          /\ WriteResult(l - 1, fails, [stat_removed |-> removed, stat_kept |-> kept])
-          /\ done' = TRUE /\ UNCHANGED <<l, fails, removed, kept>>
+          /\ WriteResult(l - 1, fails, [stat_removed |-> removed, stat_kept |-> kept, stat_live_runs |-> live, stat_live_drift |-> liveodd])
+          /\ done' = TRUE /\ UNCHANGED <<l, fails, removed, kept, live, liveodd>>
 TNext == Step \/ Finish
 TSpec == TInit /\ [][TNext]_tvars
 ====
